@@ -30,7 +30,7 @@ def FLOORS(tier):
          "observe-with-ancillas": 60 if q else 2000, "op:construct-from-raw": 200 if q else 6000, "op:observe-after-cancel_top": 60 if q else 2000, "observe-stale-with-ancillas": 15 if q else 500, "op:derive-then-constraint": 10 if q else 300}
     f.update({"untouched-object-checks": 3000 if q else 10 ** 5, "sibling:shares-mapping-dict": 100, "sibling:source-of-copy": 300,
               "caller-dict-scribbled": 60, "update:same-class-model:into-empty": 20, "update:same-class-model": 60, "update:pairs": 60,
-              "update:other-class-model": 60, "copy-by:times-one": 60, "continued-after-refused-edit": 100, "operand-with-user-mapping-and-stale-variable": 60, "update:argument-with-constraints": 20, "copy-by:neg-neg": 60, "copy-by:deepcopy": 50, "copy-by:power-one": 50, "observe:with-pairs-argument": 40, "ipow:exponent>=4:model-with-ancillas": 2})
+              "update:other-class-model": 60, "copy-by:times-one": 60, "continued-after-refused-edit": 100, "operand-with-user-mapping-and-stale-variable": 60, "update:argument-with-constraints": 20, "update:argument-with-ancillas": 6, "copy-by:neg-neg": 60, "copy-by:deepcopy": 50, "copy-by:power-one": 50, "observe:with-pairs-argument": 40, "ipow:exponent>=4:model-with-ancillas": 2})
     for t in TYPES:
         f["type:" + t] = 150 if q else 5000
     for o in OPS:
@@ -341,7 +341,18 @@ def case(ctx, rng, idx):
                     arg = gen.model_of(T, {k: v for k, v in o.items() if v})
                     if pc and rng.random() < 0.6:
                         # the other model carries a recorded constraint of its own; it stays the other model's
-                        getattr(arg, "add_constraint_%s_zero" % rng.choice(["eq", "le", "ne"]))(small_poly(rng, labs, deg2, kind), lam=0)
+                        if rng.random() < 0.5:
+                            getattr(arg, "add_constraint_%s_zero" % rng.choice(["eq", "le", "ne"]))(small_poly(rng, labs, deg2, kind), lam=0)
+                        else:
+                            # ... a penalised one, whose slack ancillas ('__a0', ...) are terms of the other model: once they are
+                            # merged in, the receiver's count has to cover them (its next constraint must not reuse the names)
+                            import warnings as _w
+                            with _w.catch_warnings():
+                                _w.simplefilter("ignore")
+                                getattr(arg, "add_constraint_%s_zero" % rng.choice(["le", "ge", "ne"]))(
+                                    {(x_,): 1 for x_ in labs[:3]} if kind == "bool" else {(x_,): 1 for x_ in labs[:3]}, lam=rng.choice([1, 2]))
+                            if anc_names(arg):
+                                ctx.cat("update:argument-with-ancillas")
                         ctx.cat("update:argument-with-constraints")
                     if len(siblings) < 4:
                         siblings.append((arg, frozen(arg), "the model handed to update()"))
